@@ -33,10 +33,10 @@ def face_area(mesh : Mesh, name="area", persistent:bool=True, dense:bool=True) -
             area[T] = geom.quad_area(*pts)
         else:
             bary = sum(pts)/npt
-            for i in range(npt):
-                A = pts[i]
-                B = pts[(i+1)%npt]
-                area[T] += geom.triangle_area(A,B,bary)            
+            crosses = [geom.cross(pts[i]-bary, pts[(i+1)%npt]-bary) for i in range(npt)]
+            N = sum(crosses) # twice the vector area of the face: orientation reference
+            # triangles of the fan that are seen from the other side (non-convex face) count negatively
+            area[T] = float(sum(geom.sign0(geom.dot(c,N)) * c.norm() for c in crosses)/2)
     return area
 
 @allowed_mesh_types(SurfaceMesh)
